@@ -82,9 +82,14 @@ func opSeqOps(f []string) string {
 			d := unhx(arg)
 			s.SetDirname(d)
 			a := compsOf(s)
+			// '\\' as soon as the directory contains one, else '/'
+			sep := "/"
+			if strings.Contains(d, "\\") {
+				sep = "\\"
+			}
 			want := d
-			if !strings.HasSuffix(d, "/") {
-				want += "/"
+			if !strings.HasSuffix(d, sep) {
+				want += sep
 			}
 			ok = strOk(s) && (d == "" || a.dir == want) && a.base == before.base && a.ext == before.ext &&
 				a.pad == before.pad && a.zfill == before.zfill && a.rng == before.rng
@@ -147,6 +152,35 @@ func opSeqOps(f []string) string {
 			a := compsOf(s)
 			ok = strOk(s) && a.base == before.base && a.dir == before.dir && a.ext == before.ext &&
 				a.pad == before.pad && a.zfill == before.zfill
+		case "V":
+			// install the inverted frame set (possibly the empty one)
+			wantLen, check := 0, false
+			if fs := s.FrameSet(); fs != nil {
+				if n := fs.Len(); n > 0 && n <= 5000 {
+					fr := fs.Frames()
+					mn, mx := fr[0], fr[0]
+					distinct := map[int]bool{}
+					for _, v := range fr {
+						distinct[v] = true
+						if v < mn {
+							mn = v
+						}
+						if v > mx {
+							mx = v
+						}
+					}
+					wantLen, check = (mx-mn+1)-len(distinct), true
+				}
+				s.SetFrameSet(fs.Invert())
+			} else {
+				check = false
+			}
+			a := compsOf(s)
+			ok = strOk(s) && a.base == before.base && a.dir == before.dir && a.ext == before.ext &&
+				a.pad == before.pad && a.zfill == before.zfill && (!check || s.Len() == wantLen)
+			if before.rng == "" && s.FrameSet() == nil {
+				ok = ok && snap(s) == beforeSnap
+			}
 		case "C":
 			var origPaths []string
 			small := s.Len() <= 300
